@@ -7,7 +7,9 @@
    of the exact one, the rest of the function as the source states it).  The code's real
    outputs differ from layer (1) at shares of exactly n.001 % and are checked to lie in
    layer (2) on every run. *)
-From Verif Require Import Base GenPercent Percent PercentFloat PercentFloatProofs.
+From Verif Require Import Base GenPercent Percent PercentFloat PercentFloatProofs FloatBound FloatBridge.
+From Coq Require Import Reals.
+Open Scope Z_scope.
 Open Scope Z_scope.
 
 (* shown p = (easy-or-verbose %, hard-to-maintain %, unmaintainable %) *)
@@ -69,6 +71,21 @@ Proof. exact robust_never_hidden. Qed.
 Theorem C19_float_empty : forall p0 p1 p2 p3 out, p0 + p1 + p2 + p3 = 0 -> may_show [p0; p1; p2; p3] out -> shown_of out = (100, 0, 0).
 Proof. exact robust_empty. Qed.
 
+(* ---- the binary64 evaluation itself (Agg/FloatBound.v, Agg/FloatBridge.v; Flocq): with every operation rounded to
+        nearest-even — the correctly rounded quotient a / t, the product with 100, the difference with the double nearest
+        to 0.001 — the computed value stays within 10^-12 of the exact one, so the outcome the code computes IS admissible.
+        These two theorems depend on the axioms of the standard library's real numbers (listed by Print Assumptions below
+        and in DESIGN.md section 8); everything else in the development is closed. ---- *)
+Theorem C19_binary64_error : forall a t : Z, (0 <= a <= t)%Z -> (0 < t)%Z -> (t < 2 ^ 53)%Z ->
+  (Rabs (fl_share a t - (IZR a / IZR t * 100 - 1 / 1000)) <= 1 / 1000000000000)%R.
+Proof. exact fl_share_close. Qed.
+Theorem C19_binary64_admissible : forall p0 p1 p2 p3 : Z,
+  0 <= p0 -> 0 <= p1 -> 0 <= p2 -> 0 <= p3 -> p0 + p1 + p2 + p3 < 2 ^ 53 ->
+  may_show [p0; p1; p2; p3] (float_outcome [p0; p1; p2; p3]).
+Proof. exact float_outcome_admissible. Qed.
+
+Print Assumptions C19_binary64_error.
+Print Assumptions C19_binary64_admissible.
 Print Assumptions C19_float_admissible.
 Print Assumptions C19_float_range.
 Print Assumptions C19_float_accuracy.
